@@ -1,6 +1,10 @@
 use crate::engine::Property;
 
 pub mod c01;
+pub mod c02;
+pub mod c03;
+pub mod c04;
+pub mod c05;
 pub mod c06;
 pub mod c07;
 pub mod c08;
@@ -9,6 +13,10 @@ pub mod c09;
 pub fn property(id: &str) -> Option<Property> {
   match id {
     "C01" => Some(c01::property()),
+    "C02" => Some(c02::property()),
+    "C03" => Some(c03::property()),
+    "C04" => Some(c04::property()),
+    "C05" => Some(c05::property()),
     "C06" => Some(c06::property()),
     "C07" => Some(c07::property()),
     "C08" => Some(c08::property()),
